@@ -282,6 +282,8 @@ def _run_symbolic(fc, res, tier, exclusions):
                            int_mode=fc.int_mode)
             if fc.force_symbolic:
                 L.ns["np"].force_symbolic = True
+            if getattr(fc, "scalar_ctors", False):
+                L.ns["np"].enable_scalar_ctors()
             holder["L"] = L
             if fc.expect_loops is not None and L.n_loops != fc.expect_loops and specs:
                 # loop contracts are keyed by ordinal: a changed loop structure invalidates the keying.
